@@ -377,6 +377,9 @@ func GenPKG(w *World, maxEdits int, opts ...string) *Scenario {
 		if sliceHeavy && s.Chance(2, 3, "each-object") {
 			chunking = 1
 		}
+		if has("recreate") && s.Chance(1, 2, "each-object-recreate") {
+			chunking = 1 // a re-created package meets the slices its predecessor left behind
+		}
 		switch chunking {
 		case 1:
 			setAnnotation(o, "packages.package-operator.run/chunking-strategy", "EachObject")
@@ -464,6 +467,9 @@ func GenPKG(w *World, maxEdits int, opts ...string) *Scenario {
 	}
 	wl := &WorkloadAgent{Cluster: "mgmt", Policy: map[store.Key]string{}, Budget: s.Intn(4, "workload-budget")}
 	w.AddAgent(wl)
+	if has("squatter") && s.Bool("squatter") {
+		w.AddAgent(&SliceSquatter{Budget: 1 + s.Intn(2, "squatter-budget")})
+	}
 	w.AddAgent(&GCAgent{Cluster: "mgmt"})
 	return sc
 }
